@@ -585,6 +585,14 @@ def _report(acc, case, v, leaves):
             if run_case(sub, core.Acc(), count=False, classify=False) is not None:
                 blame = _leaf_class(col, op, spec)
                 break
+        if blame is None and len(leaves) == 1:
+            # one leaf that is right as a 3-tuple: its spelling (2-tuple, keyword, object ...) or the method
+            form = "keyword" if case["kw"] else "+".join(sorted({it[0] for it in case["items"] if it[0] != "none"}))
+            sub = dict(case, method="list", order="id", via="call")
+            if run_case(sub, core.Acc(), count=False, classify=False) is not None:
+                blame = "spelling-" + form
+            else:
+                blame = "method-" + case["method"]
         if blame is None and case["kw"]:
             sub = dict(case, kw={})
             if run_case(sub, core.Acc(), count=False, classify=False) is None:
